@@ -11,6 +11,7 @@ Problem format of solve_masyu(height, width, problem): 0 = empty, 1 = white circ
 Answer: BoolGridFrame(height-1, width-1): horizontal[y, x] (shape (height, width-1)) joins cells
 (y,x)-(y,x+1); vertical[y, x] (shape (height-1, width)) joins (y,x)-(y+1,x).
 """
+import json
 
 MODULE = "cspuz.puzzle.masyu"
 
@@ -153,6 +154,8 @@ def solutions(inst):
 
 def classify(inst):
     h, w = _dims(inst)
+    if h == 1 and w == 1:
+        return "1x1 board"
     if h == 1 or w == 1:
         return "1xN board"
     return "square" if h == w else ("h>w" if h > w else "h<w")
@@ -174,12 +177,12 @@ def _possible_circles(h, w, H, V):
     return res
 
 
-def instances(tier, rnd):
+def _instances(tier, rnd):
     quick = tier == "quick"
     sizes = [(1, 1), (1, 3), (3, 1), (2, 2), (2, 3), (3, 2), (3, 3), (3, 4), (4, 3), (4, 4)]
     if not quick:
         sizes += [(1, 2), (2, 1), (1, 4), (2, 4), (4, 2), (2, 5), (5, 2), (3, 5), (5, 3), (4, 5), (5, 4)]
-    per = 10 if quick else 110
+    per = 14 if quick else 110
     for (h, w) in sizes:
         yield dict(height=h, width=w, problem=[[0] * w for _ in range(h)])
         if h * w <= 3:
@@ -194,7 +197,7 @@ def instances(tier, rnd):
             H, V = rnd.choice(loops)
             poss = _possible_circles(h, w, H, V)
             p = [[0] * w for _ in range(h)]
-            dens = rnd.choice([0.15, 0.3, 0.6, 1.0])
+            dens = rnd.choice([0.3, 0.6, 1.0, 1.0])
             for (y, x), ks in poss.items():
                 if rnd.random() < dens:
                     p[y][x] = rnd.choice(ks)
@@ -211,6 +214,16 @@ def instances(tier, rnd):
                     y, x = rnd.choice([0, h - 1]), rnd.randrange(w)
                     p[y][x] = rnd.choice([1, 2])
             yield dict(height=h, width=w, problem=p)
+
+
+def instances(tier, rnd):
+    """the instances of _instances() without repetitions"""
+    seen = set()
+    for inst in _instances(tier, rnd):
+        key = json.dumps(inst, sort_keys=True)
+        if key not in seen:
+            seen.add(key)
+            yield inst
 
 
 def _from_picture(rows):
